@@ -43,6 +43,9 @@ def cases(tier):
             add('swap L0 and R0', tamper={'op': 'swap', 'elem': x + 5, 'with': x + 6})
             add('swap A and A1', tamper={'op': 'swap', 'elem': x, 'with': x + 1})
         add('one more folding round', tamper={'op': 'add_round'})
+        # round counts at and beyond the word size: the round-count guard must refuse them with an error (no shift overflow)
+        for total in (31, 32, 63, 64, 65):
+            add('padded to %d folding rounds' % total, tamper={'op': 'add_round', 'count': total - rounds})
         if rounds >= 2:
             add('one folding round fewer', tamper={'op': 'drop_round'})
         for tag in range(1, 7):
